@@ -1239,6 +1239,69 @@ func c11Gen(g *Gen) {
 	c11GenIDs(g)
 	c11GenFakeClock(g)
 	c11GenTwoMakers(g)
+	for target := 0; target <= 3; target++ {
+		for i := 0; i < g.Pick(150, 3000); i++ {
+			c11GenSerialized(g, target)
+		}
+	}
+}
+
+var (
+	c11SerFluentd base.LogSerializer
+	c11SerDatadog base.LogSerializer
+)
+
+// streams produced by the outputs' REAL serializers (Config.NewSerializer) from log records, as the pipeline
+// would hand them to the chunk maker; the byte limit is placed at the end of a record, -2..+2
+func c11GenSerialized(g *Gen, target int) {
+	r := g.R
+	log := c11Logger()
+	if c11SerFluentd == nil {
+		c11SerFluentd = (&fluentdforward.Config{Serialization: fluentdforward.SerializationConfig{
+			EnvironmentFields: []string{"vhost", "app"}}}).NewSerializer(log, shared.TestSchema, "tag")
+		c11SerDatadog = (&datadog.Config{}).NewSerializer(log, shared.TestSchema, "env:verif")
+	}
+	ser := c11SerFluentd
+	if target >= 3 {
+		ser = c11SerDatadog
+	}
+	n := r.PickInt([]int{1, 2, 3, 5, 8, 13})
+	var streams [][]byte
+	alphabet := []byte("abcdefghijklmnopqrstuvwxyz \"\\\xc3\xa4,[]{}")
+	for i := 0; i < n; i++ {
+		if i > 0 && r.Chance(1, 4) {
+			streams = append(streams, append([]byte{}, streams[r.Intn(len(streams))]...)) // an exact repeat
+			continue
+		}
+		msg := string(r.Bytes(r.PickInt([]int{0, 1, 5, 20, 31, 32, 33, 100, 255, 256}), alphabet))
+		rec := shared.TestSchema.NewTestRecord2(time.Unix(int64(1600000000+r.Intn(100000000)), int64(r.Intn(1000000000))),
+			base.LogFields{r.PickStr([]string{"", "h1", "host-two"}), r.PickStr([]string{"app", "sshd"}), msg, r.PickStr([]string{"", "x"}), "K"})
+		streams = append(streams, append([]byte{}, ser.SerializeRecord(rec)...))
+	}
+	// limit: the body size of the first k records, -2..+2
+	k := r.Range(1, n)
+	size := 0
+	for _, st := range streams[:k] {
+		size += len(st)
+	}
+	if target >= 3 {
+		size += k + 1
+	}
+	maxb := size + r.Range(-2, 2)
+	if r.Chance(1, 6) {
+		maxb = 0
+	}
+	z := []int64{int64(target), int64(r.PickInt([]int{0, 0, 2, 3})), int64(maxb), int64(r.Intn(2))}
+	s := [][]byte{c11Tag(r)}
+	for _, st := range streams {
+		if r.Chance(1, 8) {
+			z = append(z, 0)
+		}
+		z = append(z, 1)
+		s = append(s, st)
+	}
+	g.Count(fmt.Sprintf("serialized:target%d", target))
+	g.Case(0, s, z)
 }
 
 // kind 7: two makers (any two targets, own limits and tags), calls interleaved at random
